@@ -15,7 +15,10 @@ import json
 REPO = os.environ.get("FS_REPO", "/repo")
 INC = os.path.join(REPO, "include", "fastscapelib")
 HERE = os.path.dirname(os.path.abspath(__file__))
-OUT = os.path.join(HERE, "lean", "FsModel", "Generated.lean")
+# FS_GENERATED_OUT: write the generated file (and, next to it, the info json) somewhere else
+# (used by shapes_selftest.py to translate edited copies of the source without touching the model)
+OUT = os.environ.get("FS_GENERATED_OUT") or os.path.join(HERE, "lean", "FsModel", "Generated.lean")
+INFO_OUT = (OUT + ".info.json") if os.environ.get("FS_GENERATED_OUT") else os.path.join(HERE, "build", "translate_info.json")
 
 
 class Fail(Exception):
@@ -444,6 +447,467 @@ def mesh_limits(out, info):
     info["mesh"] = dict(nmax=nmax, checks_degree=chk)
 
 
+_CPP_TOK = re.compile(
+    r"""«(?P<raw>.*?)»                      # raw regular expression
+      | (?P<any>@@)                         # any text (shortest)
+      | (?P<stmt>@)                         # any text inside one statement (no ; { })
+      | (?P<optbrace>\{\?|\}\?)             # brace of a single-statement block, optional
+      | (?P<ident>[A-Za-z_]\w*)
+      | (?P<num>\d+\.\d*|\.\d+|\d+)
+      | (?P<op>::|->|\+\+|--|\+=|-=|\*=|/=|<=|>=|==|!=|&&|\|\|)
+      | (?P<ch>\S)""",
+    re.X | re.S,
+)
+
+
+def cpp_re(snippet):
+    """regular expression for a C++ snippet: the snippet is cut into tokens (identifiers, numbers,
+    operators, punctuation) and any amount of white space is allowed between two tokens, so line
+    breaks and indentation do not matter while operators (`<` vs `<=`), operands and the order of
+    the statements do.  `1`, `1.`, `1.0` are the same number.  Extras: `@` any text inside one
+    statement, `@@` any text, `{?` / `}?` optional braces, `«re»` a raw regular expression."""
+    parts = []
+    for m in _CPP_TOK.finditer(snippet):
+        k, t = m.lastgroup, m.group(m.lastgroup)
+        if k == "raw":
+            parts.append("(?:%s)" % t)
+        elif k == "any":
+            parts.append(r".*?")
+        elif k == "stmt":
+            parts.append(r"[^;{}]*?")
+        elif k == "optbrace":
+            parts.append(r"(?:\%s)?" % t[0])
+        elif k == "ident":
+            parts.append(r"\b%s\b" % t)
+        elif k == "num":
+            ip, _, fp = t.partition(".")
+            fp = fp.rstrip("0")
+            if fp:
+                body = r"%s\.%s0*" % ("0?" if ip in ("", "0") else ip, fp)
+            else:
+                body = r"%s(?:\.0*)?" % (ip or "0")
+            parts.append(r"(?<![\w.])%s(?![\w.])" % body)
+        else:
+            parts.append(re.escape(t))
+    return r"\s*".join(parts)
+
+
+def _inc(v):
+    """`v++` or `++v` used as a statement / loop step (the value of the expression is not used)"""
+    e = cpp_re(v)
+    return r"«(?:\+\+\s*%s|%s\s*\+\+)»" % (e, e)
+
+
+def flow_shapes(out, info):
+    """For the core algorithms: is each statement that the hand-written model transcribes present
+    in the current source?  One list of (fact, found?) per property; `FsProofs.Properties.Shapes`
+    states by `decide` that every fact of a list is `true`.  A statement that is not found makes
+    its fact `false` (the theorem of the group then fails); `Fail` is raised only when a whole
+    function cannot be located."""
+    groups = {}
+
+    def fact(group, name, body, snippet, *more):
+        """`snippet` is found in `body` (and, for every further pair in `more`, likewise)"""
+        assert re.fullmatch(r"[a-z][a-z0-9_]*", name), name
+        lst = groups.setdefault(group, [])
+        assert name not in [n for n, _ in lst], name
+        pairs = [(body, snippet)] + [(more[i], more[i + 1]) for i in range(0, len(more), 2)]
+        lst.append((name, all(re.search(cpp_re(sn), b, flags=re.S) for b, sn in pairs)))
+
+    def reuse(group, from_group, *names):
+        d = dict(groups[from_group])
+        for n in names:
+            groups.setdefault(group, []).append((n, d[n]))
+
+    def fn(s, header, what):
+        return func_body(s, header, what)
+
+    # ------------------------------------------------------------------ single flow router (C04)
+    fr = src("flow/flow_router.hpp")
+    single = fn(fr, r"class\s+flow_operator_impl<\s*FG,\s*single_flow_router,\s*flow_graph_fixed_array_tag\s*>", "single router impl class")
+    s_apply = fn(single, r"void\s+apply\s*\(", "single router apply")
+    s_seq = fn(single, r"void\s+apply_seq\s*\(", "single router apply_seq")
+    s_par = fn(single, r"void\s+apply_par\s*\(", "single router apply_par")
+    g = "C04"
+    fact(g, "apply_sets_receivers_count_and_weights_to_one_on_every_call", s_apply,
+         "graph_impl.m_receivers_count.fill(1); auto weights = xt::col(graph_impl.m_receivers_weight, 0); weights.fill(1.);")
+    fact(g, "apply_resets_donors_count_runs_par_above_one_thread_else_seq_then_dfs_bottomup_and_bfs_orders", s_apply,
+         "graph_impl.m_donors_count.fill(0); if (m_op_ptr->threads_count() > 1) {? apply_par(graph_impl, elevation, pool); }? "
+         "else {? apply_seq(graph_impl, elevation); }? graph_impl.compute_dfs_indices_bottomup(); graph_impl.compute_bfs_indices_bottomup();")
+    for v, body, loop in (
+        ("seq", s_seq, "for (auto i : grid.nodes_indices())"),
+        ("par", s_par, "for (auto i = start; i < end; %s)" % _inc("i")),
+    ):
+        fact(g, v + "_each_node_starts_as_own_receiver_distance_zero_slope_max_lowest", body,
+             loop + " { receivers(i, 0) = i; dist2receivers(i, 0) = 0; slope_max = std::numeric_limits<double>::lowest();")
+        fact(g, v + "_masked_or_base_level_node_skipped_before_neighbors_loop", body,
+             "if (graph_impl.is_masked(i) || graph_impl.is_base_level(i)) {? continue; }? for (auto n : grid.neighbors(i, neighbors))")
+        fact(g, v + "_candidate_is_unmasked_and_strictly_lower", body,
+             "for (auto n : grid.neighbors(i, neighbors)) { if (!graph_impl.is_masked(n.idx) && elevation.flat(n.idx) < elevation.flat(i)) {")
+        fact(g, v + "_slope_is_drop_over_distance_and_strictly_steeper_updates_max_receiver_and_distance", body,
+             "slope = (elevation.flat(i) - elevation.flat(n.idx)) / n.distance; "
+             "if (slope > slope_max) { slope_max = slope; receivers(i, 0) = n.idx; dist2receivers(i, 0) = n.distance; }")
+    fact(g, "seq_node_appended_to_donors_of_its_receiver_after_neighbors_loop", s_seq,
+         "} } } auto irec = receivers(i, 0); donors(irec, donors_count(irec)++) = i; }")
+    fact(g, "par_pool_runs_blocks_over_all_nodes_then_donors_filled_sequentially_in_node_order", s_par,
+         "pool.resume(); pool.resize(static_cast<std::size_t>(m_op_ptr->threads_count())); pool.run_blocks(0, grid.size(), run); pool.pause(); "
+         "for (auto i : grid.nodes_indices()) { auto irec = receivers(i, 0); donors(irec, donors_count(irec)++) = i; }")
+
+    # ------------------------------------------------------------------ multi flow router (C05)
+    multi = fn(fr, r"class\s+flow_operator_impl<\s*FG,\s*multi_flow_router,\s*flow_graph_fixed_array_tag\s*>", "multi router impl class")
+    m_apply = fn(multi, r"void\s+apply\s*\(", "multi router apply")
+    g = "C05"
+    self_row = "receivers_count(i) = 1; receivers(i, 0) = i; receivers_weight(i, 0) = 0; dist2receivers(i, 0) = 0; continue;"
+    fact(g, "donors_count_reset_before_the_node_loop", m_apply,
+         "donors_count.fill(0); for (auto i : grid.nodes_indices()) {")
+    fact(g, "masked_or_base_level_row_is_single_self_receiver_count_one_weight_zero", m_apply,
+         "if (graph_impl.is_masked(i) || graph_impl.is_base_level(i)) { " + self_row + " }")
+    fact(g, "per_node_reset_of_nrec_weights_sum_and_slope_max", m_apply,
+         "nrec = 0; weights_sum = 0; double slope_max = 0; for (auto n : grid.neighbors(i, neighbors))")
+    fact(g, "receiver_is_unmasked_and_strictly_lower", m_apply,
+         "for (auto n : grid.neighbors(i, neighbors)) { if (!graph_impl.is_masked(n.idx) && elevation.flat(i) > elevation.flat(n.idx)) {")
+    fact(g, "slope_is_drop_over_distance_stored_with_receiver_and_distance_max_tracked", m_apply,
+         "slope = (elevation.flat(i) - elevation.flat(n.idx)) / n.distance; receivers(i, nrec) = n.idx; dist2receivers(i, nrec) = n.distance; "
+         "receivers_weight(i, nrec) = slope; slope_max = std::max(slope_max, slope);")
+    fact(g, "node_appended_to_donors_of_receiver_then_nrec_incremented", m_apply,
+         "donors(n.idx, donors_count(n.idx)++) = i; %s; } }" % _inc("nrec"))
+    fact(g, "pit_row_is_single_self_receiver_else_count_is_nrec", m_apply,
+         "if (nrec == 0) { " + self_row + " } receivers_count(i) = nrec;")
+    fact(g, "weight_is_pow_of_slope_over_max_slope_with_exponent_read_from_operator", m_apply,
+         "for (size_type j = 0; j < nrec; %s) { double rel_slope = slope_max > 0 ? receivers_weight(i, j) / slope_max : 1.; "
+         "weight = std::pow(rel_slope, this->m_op_ptr->m_slope_exp); weights_sum += weight; receivers_weight(i, j) = weight; }" % _inc("j"))
+    fact(g, "weights_divided_by_their_sum", m_apply,
+         "for (size_type j = 0; j < nrec; %s) { receivers_weight(i, j) /= weights_sum; }" % _inc("j"))
+    fact(g, "ends_with_topdown_dfs_then_bfs_orders", m_apply,
+         "graph_impl.compute_dfs_indices_topdown(); graph_impl.compute_bfs_indices_bottomup();")
+
+    # ------------------------------------------------------------------ priority flood (C02)
+    pf = src("algo/pflood.hpp")
+    p_gt = fn(pf, r"bool\s+operator\s*>\s*\(", "pflood_node operator>")
+    p_init = fn(pf, r"void\s+init_pflood\s*\(", "init_pflood")
+    p_fill = fn(pf, r"void\s+fill_sinks_sloped\s*\(", "fill_sinks_sloped")
+    sr = src("flow/sink_resolver.hpp")
+    pres = fn(sr, r"class\s+flow_operator_impl<\s*FG,\s*pflood_sink_resolver,\s*Tag\s*>", "pflood resolver impl class")
+    pres_apply = fn(pres, r"void\s+apply\s*\(", "pflood resolver apply")
+    mst = fn(sr, r"class\s+flow_operator_impl<\s*FG,\s*mst_sink_resolver,\s*flow_graph_fixed_array_tag\s*>", "mst resolver impl class")
+    mst_apply = fn(mst, r"void\s+apply\s*\(", "mst resolver apply")
+    tag = r"flow_graph_fixed_array_tag\s*>\s*::\s*"
+    r_basic = fn(sr, tag + r"update_routes_sinks_basic\s*\([^)]*\)\s*\{", "update_routes_sinks_basic")
+    r_carve = fn(sr, tag + r"update_routes_sinks_carve\s*\([^)]*\)\s*\{", "update_routes_sinks_carve")
+    r_tilt = fn(sr, tag + r"fill_sinks_sloped\s*\([^)]*\)\s*\{", "mst resolver fill_sinks_sloped")
+    g = "C02"
+    fact(g, "heap_order_is_elevation_then_node_index_on_ties", p_gt,
+         "return m_elevation > other.m_elevation || (m_elevation == other.m_elevation && m_idx > other.m_idx);")
+    fact(g, "open_queue_is_priority_queue_with_std_greater_pit_queue_is_fifo", pf,
+         "using pflood_pr_queue = std::priority_queue<pflood_node<FG, T>, std::vector<pflood_node<FG, T>>, std::greater<pflood_node<FG, T>>>; "
+         "template <class FG, class T> using pflood_queue = std::queue<pflood_node<FG, T>>;")
+    fact(g, "init_seeds_open_queue_with_unmasked_base_levels_and_closes_them", p_init,
+         "for (size_type idx : graph_impl.base_levels()) { if (graph_impl.is_masked(idx)) {? continue; }? "
+         "open.emplace(pflood_node<FG, elev_t>(idx, elevation_flat(idx))); closed(idx) = true; }")
+    fact(g, "closed_starts_all_false_then_init_then_loop_while_any_queue_non_empty", p_fill,
+         "xt::xtensor<bool, 1> closed = xt::zeros<bool>({ graph_impl.size() }); @@ init_pflood(graph_impl, elevation, closed, open); "
+         "while (!open.empty() || !pit.empty()) {")
+    fact(g, "pop_takes_open_on_equal_elevations_else_pit_queue_first_else_open", p_fill,
+         "if (!pit.empty() && !open.empty() && open.top().m_elevation == pit.front().m_elevation) { inode = open.top(); open.pop(); } "
+         "else if (!pit.empty()) { inode = pit.front(); pit.pop(); } else { inode = open.top(); open.pop(); }")
+    fact(g, "tiny_step_is_nextafter_of_popped_elevation_upwards", p_fill,
+         "elev_t elev_tiny_step = std::nextafter(inode.m_elevation, std::numeric_limits<elev_t>::«(?:infinity|max)»());")
+    fact(g, "masked_or_closed_neighbor_skipped", p_fill,
+         "for (auto n_idx : grid.neighbors_indices(inode.m_idx, neighbors_indices)) { if (graph_impl.is_masked(n_idx) || closed(n_idx)) {? continue; }?")
+    fact(g, "neighbor_not_above_tiny_step_is_raised_to_it_and_pushed_to_pit_queue", p_fill,
+         "if (elevation.flat(n_idx) <= elev_tiny_step) { elevation.flat(n_idx) = elev_tiny_step; "
+         "knode = pflood_node<FG, elev_t>(n_idx, elevation.flat(n_idx)); pit.emplace(knode); }")
+    fact(g, "higher_neighbor_pushed_to_open_queue_with_its_own_elevation_then_closed", p_fill,
+         "else { knode = pflood_node<FG, elev_t>(n_idx, elevation.flat(n_idx)); open.emplace(knode); } closed(n_idx) = true; }")
+    fact(g, "pflood_resolver_apply_is_fill_sinks_sloped", pres_apply,
+         "«^\\s*»detail::fill_sinks_sloped(graph_impl, elevation);«\\s*$»")
+    fact(g, "mst_tilt_sweeps_dfs_order_skipping_self_receivers", r_tilt,
+         "const auto& dfs_indices = graph_impl.dfs_indices(); const auto& receivers = graph_impl.receivers(); "
+         "for (const auto& idfs : dfs_indices) { const auto& irec = receivers(idfs, 0); if (idfs == irec) {? continue; }?")
+    fact(g, "mst_tilt_raises_node_not_above_receiver_to_nextafter_receiver_upwards", r_tilt,
+         "const auto& irec_elev = elevation.flat(irec); if (elevation.flat(idfs) <= elevation.flat(irec)) { "
+         "auto tiny_step = std::nextafter(irec_elev, std::numeric_limits<data_type>::«(?:infinity|max)»()); elevation.flat(idfs) = tiny_step; }")
+
+    # ------------------------------------------------------------------ mst sink resolver (C01)
+    g = "C01"
+    edge_head = ("for (size_type edge_idx : basin_graph.tree()) { auto& edge = basin_graph.edges()[edge_idx]; "
+                 "if (edge.pass[outflow] == static_cast<size_type>(-1)) {? continue; }? size_type pit_inflow = pits[edge.link[inflow]];")
+    fact(g, "apply_computes_basins_then_returns_early_when_no_pit", mst_apply,
+         "«^\\s*»graph_impl.compute_basins(); if (graph_impl.pits().empty()) {? return; }?")
+    fact(g, "apply_updates_basin_graph_routes_basic_or_carve_then_recomputes_donors_dfs_bfs_and_tilts", mst_apply,
+         "return; }? get_basin_graph(graph_impl).update_routes(elevation); if (this->m_op_ptr->m_route_method == mst_route_method::basic) "
+         "{? update_routes_sinks_basic(graph_impl, elevation); }? else {? update_routes_sinks_carve(graph_impl); }? "
+         "graph_impl.compute_donors(); graph_impl.compute_dfs_indices_bottomup(); "
+         "graph_impl.compute_bfs_indices_bottomup(); fill_sinks_sloped(graph_impl, elevation);«\\s*;?\\s*$»")
+    fact(g, "edge_ends_are_outflow_0_inflow_1_and_both_methods_visit_tree_edges_skipping_outer_basin_edges",
+         mst, "static constexpr std::uint8_t outflow = 0; static constexpr std::uint8_t inflow = 1;",
+         r_basic, "const auto& pits = basin_graph.outlets(); " + edge_head,
+         r_carve, "const auto& pits = basin_graph.outlets(); " + edge_head)
+    fact(g, "basic_pit_distance_max_and_lower_inflow_pass_routes_pit_to_outflow_pass_else_via_the_inflow_pass", r_basic,
+         "dist2receivers(pit_inflow, 0) = std::numeric_limits<data_type>::max(); "
+         "if (elevation.flat(edge.pass[inflow]) < elevation.flat(edge.pass[outflow])) { receivers(pit_inflow, 0) = edge.pass[outflow]; } "
+         "else { receivers(pit_inflow, 0) = edge.pass[inflow]; receivers(edge.pass[inflow], 0) = edge.pass[outflow]; "
+         "dist2receivers(edge.pass[inflow], 0) = edge.pass_length; }")
+    fact(g, "carve_starts_at_inflow_pass_and_reroutes_it_to_outflow_pass", r_carve,
+         "size_type current_node = edge.pass[inflow]; size_type next_node = receivers(current_node, 0); "
+         "data_type previous_dist = dist2receivers(current_node, 0); receivers(current_node, 0) = edge.pass[outflow]; "
+         "dist2receivers(current_node, 0) = edge.pass_length;")
+    fact(g, "carve_reverses_receivers_and_distances_until_the_pit", r_carve,
+         "while (current_node != pit_inflow) { auto rec_next_node = receivers(next_node, 0); receivers(next_node, 0) = current_node; "
+         "std::swap(dist2receivers(next_node, 0), previous_dist); current_node = next_node; next_node = rec_next_node; }")
+    reuse(g, "C02", "mst_tilt_sweeps_dfs_order_skipping_self_receivers",
+          "mst_tilt_raises_node_not_above_receiver_to_nextafter_receiver_upwards")
+    reuse(g, "C04", "seq_masked_or_base_level_node_skipped_before_neighbors_loop", "seq_candidate_is_unmasked_and_strictly_lower",
+          "par_masked_or_base_level_node_skipped_before_neighbors_loop", "par_candidate_is_unmasked_and_strictly_lower")
+
+    # ------------------------------------------------------------------ flow graph tables (C03, C06, C19)
+    fg = src("flow/flow_graph_impl.hpp")
+    gtag = r"flow_graph_fixed_array_tag\s*>\s*::\s*"
+    f_acc = fn(fg, gtag + r"accumulate\s*\(\s*data_array_type\s*&\s*acc\s*,[^)]*\)\s*const\s*\{", "accumulate(acc, src)")
+    f_acc2 = fn(fg, gtag + r"accumulate\s*\(\s*T\s*&&\s*src\s*\)\s*const", "accumulate(src)")
+    f_bottomup = fn(fg, r"\bnodes_indices_bottomup\s*\(\s*\)\s*const\s*\{", "nodes_indices_bottomup")
+    f_donors = fn(fg, gtag + r"compute_donors\s*\(\s*\)\s*\{", "compute_donors")
+    f_dfs_bu = fn(fg, gtag + r"compute_dfs_indices_bottomup\s*\(\s*\)\s*\{", "compute_dfs_indices_bottomup")
+    f_dfs_td = fn(fg, gtag + r"compute_dfs_indices_topdown\s*\(\s*\)\s*\{", "compute_dfs_indices_topdown")
+    f_bfs = fn(fg, gtag + r"compute_bfs_indices_bottomup\s*\(\s*\)\s*\{", "compute_bfs_indices_bottomup")
+    f_basins = fn(fg, gtag + r"compute_basins\s*\(\s*\)\s*\{", "compute_basins")
+    f_pits = fn(fg, gtag + r"pits\s*\(\s*\)", "pits")
+    f_masked = fn(fg, r"bool\s+is_masked\s*\(", "is_masked")
+    f_base = fn(fg, r"bool\s+is_base_level\s*\(", "is_base_level")
+    node_loop = "for (size_type i = 0; i < size(); %s)" % _inc("i")
+
+    g = "C03"
+    fact(g, "source_broadcast_to_grid_shape_and_acc_reset_to_zero_before_sweep", f_acc,
+         "auto src_arr = xt::broadcast(std::forward<T>(src), m_grid.shape()); acc.fill(0); auto nodes_indices = nodes_indices_bottomup(); for (")
+    fact(g, "bottomup_indices_are_the_dfs_indices", f_bottomup, "«^\\s*»return m_dfs_indices;«\\s*$»")
+    fact(g, "sweep_visits_bottomup_indices_in_reverse", f_acc,
+         "auto nodes_indices = nodes_indices_bottomup(); for (auto inode_ptr = nodes_indices.rbegin(); inode_ptr != nodes_indices.rend(); %s) "
+         "{ const auto inode = *inode_ptr;" % _inc("inode_ptr"))
+    fact(g, "node_adds_area_times_source_before_its_receivers_loop", f_acc,
+         "const auto inode = *inode_ptr; acc.flat(inode) += m_grid.nodes_areas(inode) * src_arr(inode); for (size_type r = 0;")
+    fact(g, "receivers_loop_over_slots_below_receivers_count", f_acc,
+         "for (size_type r = 0; r < m_receivers_count[inode]; %s) { size_type ireceiver = m_receivers(inode, r);" % _inc("r"))
+    fact(g, "non_self_receiver_gets_acc_of_node_times_weight_added", f_acc,
+         "size_type ireceiver = m_receivers(inode, r); if (ireceiver != inode) { acc.flat(ireceiver) += acc.flat(inode) * m_receivers_weight(inode, r); } } }")
+    fact(g, "returning_overload_allocates_grid_shape_and_delegates", f_acc2,
+         "data_array_type acc = data_array_type::from_shape(m_grid.shape()); accumulate(acc, std::forward<T>(src)); return acc;")
+
+    g = "C06"
+    fact(g, "donors_counts_reset_to_zero_before_node_loop", f_donors, "«^\\s*»m_donors_count.fill(0); " + node_loop + " {")
+    fact(g, "donors_node_with_other_receiver_appended_to_its_donors_row", f_donors,
+         "if (m_receivers(i, 0) != i) { auto irec = m_receivers(i, 0); m_donors(irec, m_donors_count(irec)++) = i; }")
+    fact(g, "dfs_bottomup_roots_are_self_receivers_pushed_on_stack_and_recorded", f_dfs_bu,
+         "size_type nstack = 0; std::stack<size_type> tmp; " + node_loop + " { if (m_receivers(i, 0) == i) { tmp.push(i); m_dfs_indices(nstack++) = i; } while (!tmp.empty()) {")
+    fact(g, "dfs_bottomup_pop_records_and_pushes_each_non_self_donor", f_dfs_bu,
+         "while (!tmp.empty()) { size_type istack = tmp.top(); tmp.pop(); for (size_type k = 0; k < m_donors_count(istack); %s) "
+         "{ const auto idonor = m_donors(istack, k); if (idonor != istack) { m_dfs_indices(nstack++) = idonor; tmp.push(idonor); } } }" % _inc("k"))
+    fact(g, "dfs_topdown_starts_from_nodes_without_donor_with_zeroed_visit_counters", f_dfs_td,
+         "std::vector<size_type> visited_count(size(), 0); " + node_loop + " { if (m_donors_count(i) == 0) { tmp.push(i); } while (!tmp.empty()) {")
+    fact(g, "dfs_topdown_pop_records_node_and_pushes_receiver_once_all_its_donors_visited", f_dfs_td,
+         "size_type istack = tmp.top(); tmp.pop(); m_dfs_indices(nstack++) = istack; for (size_type k = 0; k < m_receivers_count(istack); %s) "
+         "{ const auto irec = m_receivers(istack, k); %s; if (visited_count[irec] == m_donors_count(irec)) { tmp.push(irec); } }"
+         % (_inc("k"), _inc("visited_count[irec]")))
+    fact(g, "dfs_topdown_order_reversed_at_the_end", f_dfs_td,
+         "std::reverse(m_dfs_indices.begin(), m_dfs_indices.end());«\\s*$»")
+    fact(g, "bfs_first_level_is_the_self_receivers_in_node_order", f_bfs,
+         node_loop + " {? if (m_receivers(i, 0) == i) {? m_bfs_indices(nstack++) = i; }? }? levels[level++] = 0; levels[level++] = nstack; while (nstack < size()) {")
+    fact(g, "bfs_sweeps_previous_level_marks_node_visited_and_skips_visited_donors", f_bfs,
+         "for (size_type i = levels[level - 2]; i < levels[level - 1]; %s) { auto node_idx = m_bfs_indices(i); visited[node_idx] = 1; "
+         "for (size_type k = 0; k < m_donors_count(node_idx); %s) { auto donor_idx = m_donors(node_idx, k); skip = visited[donor_idx] > 0; "
+         "if (skip) {? continue; }?" % (_inc("i"), _inc("k")))
+    fact(g, "bfs_donor_skipped_unless_all_its_receivers_are_visited", f_bfs,
+         "for (std::size_t rcv_idx = 0; rcv_idx < m_receivers_count(donor_idx); %s) { if (visited[m_receivers(donor_idx, rcv_idx)] != 1) "
+         "{ skip = true; break; } }" % _inc("rcv_idx"))
+    fact(g, "bfs_ready_donor_queued_and_marked_pending", f_bfs,
+         "if (!skip && visited[donor_idx] == 0) { m_bfs_indices(nstack++) = donor_idx; visited[donor_idx] = 2; }")
+    fact(g, "bfs_level_closed_after_sweep_and_levels_stored", f_bfs,
+         "for (size_type i = levels[level - 2]; i < levels[level - 1]; %s) {? visited[m_bfs_indices(i)] = 1; }? levels[level++] = nstack; } "
+         "m_bfs_levels = xt::adapt(levels, { level });" % _inc("i"))
+
+    g = "C19"
+    fact(g, "label_counter_starts_at_minus_one_no_basin_is_max_outlets_cleared", f_basins,
+         "size_type current_basin = static_cast<size_type>(-1); size_type no_basin = std::numeric_limits<size_type>::max(); m_outlets.clear();")
+    fact(g, "sweep_in_bottomup_dfs_order", f_basins, "m_outlets.clear(); for (const auto& inode : nodes_indices_bottomup()) {",
+         f_bottomup, "«^\\s*»return m_dfs_indices;«\\s*$»")
+    fact(g, "masked_node_gets_the_maximum_label_and_is_skipped", f_basins,
+         "nodes_indices_bottomup()) { if (is_masked(inode)) { m_basins(inode) = no_basin; continue; }")
+    fact(g, "outlet_is_self_receiver_collected_in_order_then_counter_incremented", f_basins,
+         "if (inode == m_receivers(inode, 0)) { m_outlets.push_back(inode); %s; }" % _inc("current_basin"))
+    fact(g, "node_labelled_with_current_counter_after_the_outlet_test", f_basins,
+         "%s; } m_basins(inode) = current_basin; }" % _inc("current_basin"))
+    fact(g, "pits_cleared_then_outlets_that_are_not_base_levels_in_order", f_pits,
+         "m_pits.clear(); for (const auto outlet : m_outlets) { if (!is_base_level(outlet)) { m_pits.push_back(outlet); } } return m_pits;")
+    fact(g, "masked_means_mask_initialized_and_set_base_level_means_member_of_set", f_masked,
+         "«^\\s*»return m_mask_initialized && m_mask.flat(idx);«\\s*$»", f_base, "«^\\s*»return bool(m_base_levels.count(idx));«\\s*$»")
+
+    # ------------------------------------------------------------------ basin graph, union-find (C15)
+    bg = src("flow/basin_graph.hpp")
+    b_update = fn(bg, r"basin_graph<FG>::update_routes\s*\(", "basin_graph update_routes")
+    b_connect = fn(bg, r"basin_graph<FG>::connect_basins\s*\(", "connect_basins")
+    b_kruskal = fn(bg, r"basin_graph<FG>::compute_tree_kruskal\s*\(", "compute_tree_kruskal")
+    b_orient = fn(bg, r"basin_graph<FG>::orient_edges\s*\(", "orient_edges")
+    uf = src("utils/union_find.hpp")
+    ufc = fn(uf, r"class\s+union_find\s*\{", "class union_find")
+    u_find = fn(ufc, r"\bT\s+find\s*\(\s*T\s+x\s*\)", "union_find::find")
+    u_merge = fn(ufc, r"\bvoid\s+merge\s*\(\s*T\s+x\s*,\s*T\s+y\s*\)", "union_find::merge")
+    u_clear = fn(ufc, r"\bvoid\s+clear\s*\(\s*\)", "union_find::clear")
+    u_resize = fn(ufc, r"\bvoid\s+resize\s*\(\s*size_t\s+_size\s*\)", "union_find::resize")
+    g = "C15"
+    fact(g, "update_routes_connects_then_builds_tree_by_selected_method_then_orients", b_update,
+         "«^\\s*»connect_basins(elevation); if (m_mst_method == mst_method::kruskal) {? compute_tree_kruskal(); }? "
+         "else {? compute_tree_boruvka(); }? orient_edges();«\\s*$»")
+    fact(g, "connect_per_call_reset_root_edges_cleared_positions_resized_then_filled_tmp_cleared", b_connect,
+         "m_root = init_idx; m_edges.clear(); @@ m_edge_positions.resize(nbasins); std::fill(m_edge_positions.begin(), m_edge_positions.end(), init_idx); "
+         "@@ m_edge_positions_tmp.clear(); for (const auto idfs : dfs_indices)")
+    fact(g, "connect_sweeps_dfs_order_skipping_masked_outlet_sets_basin_and_inner_flag_first_outer_is_root_others_linked_to_root", b_connect,
+         "const auto& dfs_indices = m_flow_graph_impl.dfs_indices(); @@ for (const auto idfs : dfs_indices) { "
+         "if (m_flow_graph_impl.is_masked(idfs)) {? continue; }? const auto irec = receivers(idfs, 0); "
+         "if (irec == idfs) { ibasin = basins(idfs); is_inner_basin = !m_flow_graph_impl.is_base_level(idfs); if (!is_inner_basin) { "
+         "if (m_root == init_idx) { m_root = ibasin; } else { m_edges.push_back(edge::make_edge(m_root, ibasin)); } } }")
+    fact(g, "connect_inner_basin_node_scans_unmasked_neighbors_skipping_lower_or_equal_inner_basins", b_connect,
+         "if (is_inner_basin) { const data_type ielev = elevation.flat(idfs); for (auto n : grid.neighbors(idfs, neighbors)) { "
+         "if (m_flow_graph_impl.is_masked(n.idx)) {? continue; }? const size_type nbasin = basins(n.idx); bool skip = ibasin >= nbasin; "
+         "bool is_inner_nbasin = !m_flow_graph_impl.is_base_level(outlets()[nbasin]); if (skip && is_inner_nbasin) {? continue; }?")
+    fact(g, "connect_pass_elevation_is_max_of_the_two_node_elevations", b_connect,
+         "const data_type pass_elevation = std::max(ielev, elevation.flat(n.idx));")
+    fact(g, "connect_lazy_reset_of_visited_positions_on_basin_change_before_position_is_read", b_connect,
+         "if (current_basin != ibasin) { for (const auto& ivisited : m_edge_positions_tmp) { m_edge_positions[ivisited] = init_idx; } "
+         "m_edge_positions_tmp.clear(); current_basin = ibasin; } const size_type edge_idx = m_edge_positions[nbasin];")
+    fact(g, "connect_undefined_position_records_and_appends_new_edge_else_replaced_only_by_strictly_lower_pass", b_connect,
+         "if (edge_idx == init_idx) { m_edge_positions[nbasin] = m_edges.size(); m_edge_positions_tmp.push_back(nbasin); "
+         "m_edges.push_back({ { ibasin, nbasin }, { idfs, n.idx }, pass_elevation, n.distance }); } "
+         "else if (pass_elevation < m_edges[edge_idx].pass_elevation) { m_edges[edge_idx] = edge{ { ibasin, nbasin }, { idfs, n.idx }, pass_elevation, n.distance }; }")
+    fact(g, "kruskal_tree_cleared_and_edge_indices_sorted_by_pass_elevation_with_less", b_kruskal,
+         "m_tree.clear(); m_edges_indices.resize(m_edges.size()); std::iota(m_edges_indices.begin(), m_edges_indices.end(), 0); "
+         "std::sort(m_edges_indices.begin(), m_edges_indices.end(), [@](const size_type& i0, const size_type& i1) "
+         "{ return m_edges[i0].pass_elevation < m_edges[i1].pass_elevation; });")
+    fact(g, "kruskal_union_find_reset_then_in_sorted_order_edge_kept_when_classes_differ_then_merged", b_kruskal,
+         "m_edges[i1].pass_elevation; }); m_basins_uf.resize(basins_count()); m_basins_uf.clear(); for (size_type edge_idx : m_edges_indices) { size_type* link = m_edges[edge_idx].link; "
+         "if (m_basins_uf.find(link[0]) != m_basins_uf.find(link[1])) { m_tree.push_back(edge_idx); m_basins_uf.merge(link[0], link[1]); } }")
+    fact(g, "union_find_find_follows_parents_to_root_then_compresses_path_to_root", u_find,
+         "«^\\s*»T c = x; while (c != parent[c]) {? c = parent[c]; }? while (x != parent[x]) { T t = parent[x]; parent[x] = c; x = t; } return c;«\\s*$»")
+    fact(g, "union_find_merge_by_rank_three_branches", u_merge,
+         "«^\\s*»x = find(x); y = find(y); if (x != y) { if (rank[x] < rank[y]) {? parent[x] = y; }? else { parent[y] = x; "
+         "if (rank[x] == rank[y]) {? rank[x] += 1; }? } }«\\s*$»")
+    fact(g, "union_find_clear_empties_then_resize_restores_identity_parents_zero_ranks", u_clear,
+         "«^\\s*»size_t old_size = size(); parent.clear(); rank.clear(); resize(old_size);«\\s*$»", u_resize, "«^\\s*»parent.resize(_size); rank.resize(_size, 0); "
+         "std::iota(parent.begin(), parent.end(), 0);")
+    fact(g, "orient_without_root_clears_tree_else_stack_seeded_with_root_as_own_parent", b_orient,
+         "if (m_root == init_idx) { m_tree.clear(); return; } @@ m_reorder_stack.clear(); m_reorder_stack.push_back({ m_root, m_root, "
+         "std::numeric_limits<data_type>::min(), std::numeric_limits<data_type>::min() });")
+    fact(g, "orient_pops_node_and_parent_scans_adjacent_tree_edges_skips_edge_from_parent_else_swaps_when_node_not_first_and_pushes_child", b_orient,
+         "while (m_reorder_stack.size()) { @@ std::tie(node, parent, pass_elevation, parent_pass_elevation) = m_reorder_stack.back(); "
+         "m_reorder_stack.pop_back(); for (size_t i = m_nodes_connects_ptr[node]; i < m_nodes_connects_ptr[node] + m_nodes_connects_size[node]; %s) "
+         "{ edge& edg = m_edges[m_nodes_adjacency[i]]; if (edg.link[0] == parent && node != parent) { @@ } "
+         "else { if (node != edg.link[0]) { std::swap(edg.link[0], edg.link[1]); std::swap(edg.pass[0], edg.pass[1]); } "
+         "m_reorder_stack.push_back({ edg.link[1], node, std::max(edg.pass_elevation, pass_elevation), pass_elevation }); "
+         "m_edge_reached[m_nodes_adjacency[i]] = 1; }" % _inc("i"))
+    fact(g, "orient_reached_flags_zeroed_before_and_unreached_tree_edges_dropped_after", b_orient,
+         "m_edge_reached.assign(m_edges.size(), 0); @@ while (m_reorder_stack.size()) { @@ m_tree.erase(std::remove_if(m_tree.begin(), m_tree.end(), "
+         "[@](size_type e) { return !m_edge_reached[e]; }), m_tree.end());«\\s*$»")
+
+    # ------------------------------------------------------------------ stream-power eroder (C12, C13)
+    sp = src("eroders/spl.hpp")
+    e = fn(sp, r"spl_eroder<FG, S>::erode\s*\(", "spl erode")
+    shared = []
+
+    def both(name, snippet):
+        shared.append(name)
+        fact("C12", name, e, snippet)
+
+    both("erosion_filled_with_zero_and_correction_counter_reset_on_every_call",
+         "m_erosion.fill(0); m_n_corr = 0; for (const auto& inode : flow_graph_impl.nodes_indices_bottomup()) {")
+    g = "C12"
+    fact(g, "outlet_or_pit_single_self_receiver_skipped", e,
+         "data_type inode_elevation = elevation.flat(inode); auto r_count = receivers_count[inode]; "
+         "if (r_count == 1 && receivers(inode, 0) == inode) {? continue; }?")
+    fact(g, "flooded_level_is_min_over_receivers_of_elevation_minus_erosion", e,
+         "double elevation_flooded = std::numeric_limits<double>::max(); for (size_type r = 0; r < r_count; %s) { size_type irec = receivers(inode, r); "
+         "data_type irec_elevation_next = elevation.flat(irec) - m_erosion.flat(irec); if (irec_elevation_next < elevation_flooded) "
+         "{? elevation_flooded = irec_elevation_next; }? }" % _inc("r"))
+    both("lake_node_not_above_flooded_level_skipped",
+         "if (inode_elevation <= elevation_flooded) {? continue; }? double eq_num = inode_elevation; double eq_den = 1.0;")
+    fact(g, "receiver_above_the_node_skipped", e,
+         "data_type irec_elevation = elevation.flat(irec); data_type irec_elevation_next = irec_elevation - m_erosion.flat(irec); "
+         "if (irec_elevation > inode_elevation) {? continue; }?")
+    both("factor_is_k_times_dt_times_pow_of_area_times_weight_to_area_exp",
+         "data_type irec_weight = receivers_weight(inode, r); data_type irec_distance = receivers_distance(inode, r); "
+         "auto factor = «\\(?» m_k_coef(inode) * dt * std::pow(drainage_area.flat(inode) * irec_weight, m_area_exp) «\\)?» ;")
+    fact(g, "linear_path_divides_factor_by_distance_and_accumulates_numerator_and_denominator", e,
+         "if (m_linear) { factor /= irec_distance; eq_num += factor * irec_elevation_next; eq_den += factor; }")
+    both("updated_elevation_is_num_over_den_clamped_to_flooded_plus_min_with_counter",
+         "data_type inode_elevation_updated = eq_num / eq_den; if (inode_elevation_updated < elevation_flooded) { %s; "
+         "inode_elevation_updated = elevation_flooded + std::numeric_limits<data_type>::min(); }" % _inc("m_n_corr"))
+    both("erosion_is_old_minus_updated_elevation",
+         "m_erosion.flat(inode) = inode_elevation - inode_elevation_updated; } return m_erosion;«\\s*$»")
+    g = "C13"
+    fact(g, "nonlinear_path_divides_factor_by_pow_of_distance_to_slope_exp", e,
+         "else { factor /= std::pow(irec_distance, m_slope_exp);")
+    fact(g, "newton_starts_from_the_full_drop_and_loops_unconditionally", e,
+         "double delta_0 = inode_elevation - irec_elevation_next; double delta_k = delta_0; while (true) {")
+    fact(g, "newton_residual_is_delta_k_plus_factor_pow_delta_k_minus_delta_0", e,
+         "while (true) { auto factor_delta_exp = factor * std::pow(delta_k, m_slope_exp); auto func = delta_k + factor_delta_exp - delta_0;")
+    fact(g, "newton_exits_on_two_sided_tolerance_test", e,
+         "if (std::fabs(func) <= m_tolerance) {? break; }?")
+    fact(g, "newton_step_then_exit_on_non_positive_iterate", e,
+         "auto func_deriv = 1 + m_slope_exp * factor_delta_exp / delta_k; delta_k -= func / func_deriv; if (delta_k <= 0) {? break; }? }")
+    fact(g, "newton_result_sets_numerator_to_elevation_minus_drop_change", e,
+         "} eq_num = inode_elevation - (delta_0 - delta_k); }")
+    reuse(g, "C12", *shared)
+
+    # ------------------------------------------------------------------ ADI diffusion (C14)
+    ad = src("eroders/diffusion_adi.hpp")
+    a_fac = fn(ad, r"diffusion_adi_eroder<G, S>::set_factors\s*\(", "set_factors")
+    a_tri = fn(ad, r"diffusion_adi_eroder<G, S>::solve_tridiagonal\s*\(", "solve_tridiagonal")
+    a_row = fn(ad, r"diffusion_adi_eroder<G, S>::solve_adi_row\s*\(", "solve_adi_row")
+    a_erode = fn(ad, r"diffusion_adi_eroder<G, S>::erode\s*\(", "adi erode")
+    g = "C14"
+    fact(g, "scalar_factors_are_k_times_half_over_spacing_squared_dx_is_spacing_1_dy_is_spacing_0", a_fac,
+         "data_type dx = spacing[1]; data_type dy = spacing[0]; @@ if (m_k_coef_is_scalar) { fr = m_k_coef_scalar * 0.5 / (dy * dy); "
+         "fc = m_k_coef_scalar * 0.5 / (dx * dx); m_factors_row = xt::ones<data_type>(factors_shape) * fr; m_factors_col = xt::ones<data_type>(factors_shape) * fc; }")
+    fact(g, "array_factors_start_from_quarter_over_spacing_squared", a_fac,
+         "else { fr = 0.25 / (dy * dy); fc = 0.25 / (dx * dx);")
+    fact(g, "array_factors_are_face_sums_of_k_over_interior_nodes", a_fac,
+         "for (size_type r = 1; r < m_nrows - 1; %s) { for (size_type c = 1; c < m_ncols - 1; %s) { "
+         "m_factors_row(0, r, c) = fr * (k(r - 1, c) + k(r, c)); m_factors_row(1, r, c) = fr / 2 * (k(r - 1, c) + 2 * k(r, c) + k(r + 1, c)); "
+         "m_factors_row(2, r, c) = fr * (k(r, c) + k(r + 1, c)); m_factors_col(0, r, c) = fc * (k(r, c - 1) + k(r, c)); "
+         "m_factors_col(1, r, c) = fc / 2 * (k(r, c - 1) + 2 * k(r, c) + k(r, c + 1)); m_factors_col(2, r, c) = fc * (k(r, c) + k(r, c + 1)); } }"
+         % (_inc("r"), _inc("c")))
+    fact(g, "row_system_lower_diag_upper_from_the_column_factors_over_interior_rows", a_row,
+         "for (size_type r = 1; r < nrows - 1; %s) { m_lower = -1 * xt::view(factors_col, 0, r, xt::all()) * dt; "
+         "m_diag = 1 + 2 * xt::view(factors_col, 1, r, xt::all()) * dt; m_upper = -1 * xt::view(factors_col, 2, r, xt::all()) * dt;" % _inc("r"))
+    fact(g, "row_system_rhs_is_explicit_half_step_with_the_row_factors", a_row,
+         "for (size_type c = 1; c < ncols - 1; %s) { m_vec(c) = «\\(?» (1 - 2 * factors_row(1, r, c) * dt) * elevation(r, c) "
+         "+ factors_row(0, r, c) * elevation(r - 1, c) * dt + factors_row(2, r, c) * elevation(r + 1, c) * dt «\\)?» ; }" % _inc("c"))
+    fact(g, "row_system_boundary_equations_are_identity_on_the_elevation", a_row,
+         "auto ilast = ncols - 1; m_lower(0) = 0; m_lower(ilast) = 0; m_diag(0) = 1; m_diag(ilast) = 1; m_upper(0) = 0; m_upper(ilast) = 0; "
+         "m_vec(0) = elevation(r, 0); m_vec(ilast) = elevation(r, ilast);")
+    fact(g, "row_solution_written_to_row_r_of_a_copy_of_the_elevation", a_row,
+         "«^\\s*»xt::xtensor<double, 2> elevation_out = elevation; @@ auto elevation_out_r = xt::view(elevation_out, r, xt::all()); "
+         "elevation_out_r = solve_tridiagonal(); } return elevation_out;«\\s*$»")
+    fact(g, "thomas_forward_elimination", a_tri,
+         "auto bet = m_diag(0); result(0) = m_vec(0) / bet; for (size_type i = 1; i < n; %s) { gam(i) = m_upper(i - 1) / bet; "
+         "bet = m_diag(i) - m_lower(i) * gam(i); @@ result(i) = (m_vec(i) - m_lower(i) * result(i - 1)) / bet; }" % _inc("i"))
+    fact(g, "thomas_back_substitution_from_last_but_one_down_to_zero", a_tri,
+         "for (int i = static_cast<int>(n) - 2; i > -1; «(?:--\\s*i|i\\s*--)») { result(i) -= gam(i + 1) * result(i + 1); } return result;«\\s*$»")
+    fact(g, "erode_is_row_half_step_then_half_step_on_transposed_arrays_with_factors_swapped", a_erode,
+         "resize_tridiagonal(m_ncols); auto elevation_tmp = solve_adi_row(elevation, m_factors_row, m_factors_col, m_nrows, m_ncols, dt); "
+         "resize_tridiagonal(m_nrows); auto tranposed_dims = std::array<std::size_t, 3>{ 0, 2, 1 }; "
+         "auto elevation_next = solve_adi_row(xt::transpose(elevation_tmp), xt::transpose(m_factors_col, tranposed_dims), "
+         "xt::transpose(m_factors_row, tranposed_dims), m_ncols, m_nrows, dt);")
+    fact(g, "erosion_is_elevation_minus_transposed_result", a_erode,
+         "auto erosion_v = xt::view(m_erosion, xt::all(), xt::all()); erosion_v = elevation - xt::transpose(elevation_next); return m_erosion;«\\s*$»")
+
+    order = ["C01", "C02", "C03", "C04", "C05", "C06", "C12", "C13", "C14", "C15", "C19"]
+    assert sorted(groups) == order
+    out.append("/-! statements of the core algorithms that the hand-written model transcribes: found (true) or not\n"
+               "(false) in the current source, per property (`FsProofs.Properties.Shapes` states that all are found) -/")
+    for grp in order:
+        out.append("def shapes%s : List (String × Bool) :=\n  [%s]"
+                   % (grp, ",\n   ".join('("%s", %s)' % (k, "true" if v else "false") for k, v in groups[grp])))
+    info["flow_shapes"] = {grp: dict(groups[grp]) for grp in order}
+
+
 SECTIONS = [  # (name, function, properties whose tie depends on it)
     ("mesh_limits", mesh_limits, ["C08", "C18"]),
     ("raster_tables", raster_tables, ["C07", "C08"]),
@@ -452,6 +916,7 @@ SECTIONS = [  # (name, function, properties whose tie depends on it)
     ("snapshot_members", snapshot_members, ["C16"]),
     ("pool_orders", pool_orders, ["C10", "C11", "C15"]),
     ("spl_forms", spl_forms, ["C12", "C13"]),
+    ("flow_shapes", flow_shapes, ["C01","C02","C03","C04","C05","C06","C09","C12","C13","C14","C15","C19"]),
 ]
 FALLBACK = os.path.join(HERE, "translate_fallback.json")
 
@@ -489,8 +954,8 @@ def main():
         with open(OUT, "w") as f:
             f.write(text)
     info["failed_sections"] = failed
-    os.makedirs(os.path.join(HERE, "build"), exist_ok=True)
-    with open(os.path.join(HERE, "build", "translate_info.json"), "w") as f:
+    os.makedirs(os.path.dirname(INFO_OUT), exist_ok=True)
+    with open(INFO_OUT, "w") as f:
         json.dump(info, f, indent=1, default=str)
     if failed:
         print("translate partial: sections %s not recognised (%s)" % (sorted(failed), "; ".join("%s: %s" % (k, v["why"]) for k, v in failed.items())))
